@@ -9,7 +9,8 @@ EXTENDS Integers, Sequences, FiniteSets, TLC
 
 CONSTANTS Literals,     \* sequence of initial arrays [c |-> "lit" | "new" | "len", els |-> <<token | "hole">>, n |-> length]
           OpsSeq,       \* sequence of operation records (the alphabet)
-          GetterCap
+          GetterCap,
+          ProtoIdx      \* indices with an inherited data property (see ArrayAlgo)
 
 VARIABLE obj            \* [arr, len, lenW, ext, sk, el]
 
